@@ -293,6 +293,9 @@ class Interp:
         raise Unmodelled("continue at %s" % frame.loc(st))
 
     def st_Break(self, st, frame):
+        if getattr(self.ctx, "unrolled", 0) > 0:
+            from .loops import BreakSignal
+            raise BreakSignal()
         raise Unmodelled("break at %s" % frame.loc(st))
 
     def st_Global(self, st, frame):
